@@ -57,6 +57,22 @@ def call_bound(ex, recv, name, args, kwargs, e):
         if name == "format":
             return VZ(fresh("formatted", Str), "str")
         raise Unsupported("str.%s at %d" % (name, e.lineno))
+    if isinstance(recv, VZ) and recv.kind == "str" and not kwargs:
+        if name in ("strip", "rstrip", "lstrip", "lower", "upper", "title", "casefold", "replace", "encode", "decode"):
+            # some string determined by the receiver and the (constant) arguments: an uninterpreted function
+            key = name + "".join("_%s" % abs(hash(repr(a.py))) if isinstance(a, VConst) else "_sym" for a in args)
+            if all(isinstance(a, VConst) for a in args):
+                return VZ(Function("str_" + key, Str, Str)(recv.t), "str")
+            return VZ(fresh("str_" + name, Str), "str")
+        if name in ("isdigit", "isalpha", "isalnum", "isnumeric", "isdecimal", "isspace", "islower", "isupper"):
+            p_ = Function("str_" + name, Str, BOOL)
+            if name in ("isdigit", "isnumeric", "isdecimal", "isalnum"):
+                ex.assume(FA([INT], lambda i_: Implies(i_ >= 0, p_(dec(i_))), pats=lambda i_: [dec(i_)]))
+            ex.assume(Not(p_(EMPTY)))
+            return VZ(p_(recv.t), "bool")
+        if name in ("startswith", "endswith") and len(args) == 1 and kind_of(args[0]) == "str":
+            a = ex.scalar(args[0], "str", e)
+            return VZ(Function("str_" + name, Str, Str, BOOL)(recv.t, a), "bool")
     if isinstance(recv, VUnknownColl) and name in ("add", "append", "discard", "update", "extend", "clear"):
         return VConst(None)
     if isinstance(recv, VSet) and name == "add":
@@ -190,6 +206,13 @@ def call_func(ex, name, args, kwargs, e):
         if isinstance(v, VListeners):
             from .symex import card
             return VZ(card(ex.st.heap["Mailbox._listeners"][v.obj]), "int")
+        if isinstance(v, VZ) and v.kind == "str":
+            n = Function("str_len", Str, INT)(v.t)
+            ex.assume(n >= 0)
+            ex.assume((n == 0) == (v.t == EMPTY))
+            return VZ(n, "int")
+        if isinstance(v, VConst) and isinstance(v.py, (str, tuple, list)):
+            return VConst(len(v.py))
         if isinstance(v, VBag):
             n = bag_count(ex, v)
             return VZ(n, "int")
@@ -206,6 +229,8 @@ def call_func(ex, name, args, kwargs, e):
         v = args[0]
         if isinstance(v, VSet):
             return v
+        if isinstance(v, VDict):
+            return dict_keys(ex, v)
         if isinstance(v, VList):
             el = v.at(fresh("probe", INT))
             k = kind_of(el)
